@@ -56,8 +56,8 @@ def c03(tier, seed, only=None):
             continue
         jobs.append(job(s, dict(rerun=1, rerun_mode="tasks", extra_outcomes=xo, horizon=60,
                                 dev=3 if tier == "quick" else 4), mons))
-    if tier != "quick":
-        jobs += _ctrl_jobs(tier, mons, dict(hold=1, pause=1, resume=1, horizon=60, dev=4), families=fams)
+    jobs += _ctrl_jobs(tier, mons, dict(hold=1, pause=1, resume=1, horizon=60, resume_only_at_rest=False,
+                                        dev=3 if tier == "quick" else 4), families=("F2",))
     for s in gen.f3_all():
         dev = gen.f3_dev(s, tier)
         jobs.append(job(s, dict(pause=1, resume=1, cancel=1, dev=dev, horizon=150), mons))
@@ -246,6 +246,7 @@ def c18(tier, seed, only=None):
     big_names = {s.name for s in gen.f2_all(tier) + gen.f4_all(tier) + gen.f5_all(tier) if gen.is_big(s)}
     for j in jobs:
         j["cfg"]["render"] = True
+        j["cfg"]["snap_graph"] = True
         if j["cfg"].get("rerun") and (tier != "quick" or j["scn"]["name"] not in big_names
                                        or "-m2-j1-" in j["scn"]["name"]):
             j["cfg"]["rerun_with_inflight"] = True
@@ -293,6 +294,11 @@ def c02(tier, seed, only=None):
     mons = [SM + "TruthfulStatus"]
     jobs = _ctrl_jobs(tier, mons, dict(pause=1, resume=1, cancel=1, horizon=60, resume_only_at_rest=False))
     jobs += _interim_jobs(tier, mons, dict(pause=1, resume=1, cancel=1, horizon=60))
+    # an action that goes pending (inquiry) while other branches still have work; resume while it is pending
+    for s in gen.f2_all(tier):
+        if not gen.is_big(s):
+            jobs.append(job(s, dict(hold=1, pause=1, resume=1, horizon=60, resume_only_at_rest=False,
+                                    dev=3 if tier == "quick" else 4), mons))
     jobs = _filter(jobs, only)
     results = runner.run_jobs(jobs, seed=seed)
     rule = (
@@ -322,8 +328,14 @@ def c04(tier, seed, only=None):
 def c10(tier, seed, only=None):
     t0 = time.time()
     mons = [SM + "CancelStops"]
-    jobs = _ctrl_jobs(tier, mons, dict(pause=1, resume=1, cancel=1, render=True, horizon=60))
+    jobs = _ctrl_jobs(tier, mons, dict(pause=1, resume=1, cancel=1, render=True, horizon=60),
+                      families=("F2", "F4", "F5", "F6"))
     jobs += _interim_jobs(tier, mons, dict(cancel=1, horizon=60))
+    # the last in-flight action answers a cancel with pending (held) or fails under a retry policy
+    for s in gen.f6_publish(tier) + gen.f5_all(tier):
+        if not gen.is_big(s):
+            jobs.append(job(s, dict(cancel=1, pause=1, hold=1, render=True, horizon=60, dev=3 if tier == "quick" else 4),
+                            mons))
     jobs = _filter(jobs, only)
     results = runner.run_jobs(jobs, seed=seed)
     rule = (
@@ -337,7 +349,7 @@ def c10(tier, seed, only=None):
 def c09(tier, seed, only=None):
     t0 = time.time()
     mons = ["vx.monitors.pause.PauseTransparent"]
-    jobs = _ctrl_jobs(tier, mons, dict(pause=1, resume=1, horizon=60))
+    jobs = _ctrl_jobs(tier, mons, dict(pause=1, resume=1, horizon=60), families=("F2", "F4", "F5", "F6"))
     jobs = _filter(jobs, only)
     results = runner.run_jobs(jobs, seed=seed)
     rule = (
@@ -469,6 +481,11 @@ def c17(tier, seed, only=None):
         if s.name in ("F2/seq2", "F2/seq3", "F2/decide", "F2/handler-remediate-then-next"):
             # sequences: explicit reruns of any execution (also succeeded ones), twice
             jobs.append(job(s, dict(rerun=2, rerun_mode="tasks", horizon=70), mons))
+        if s.family == "F4" and not gen.is_big(s):
+            # items that timed out or were abandoned are re-executed like failed ones
+            jobs.append(job(s, dict(rerun=1, rerun_mode="failed", rerun_outcomes=ok_only, horizon=70,
+                                    extra_outcomes=[["timeout", None], ["abandoned", None]],
+                                    dev=3 if tier == "quick" else 4), mons))
         if not gen.is_big(s):
             # inadmissible-request probes also in paused / pausing / canceling states
             jobs.append(job(s, dict(rerun=1, rerun_mode="failed", pause=1, resume=1, cancel=1, horizon=70,
